@@ -361,6 +361,14 @@ def f(x: FLOAT[...]):
     return t
 ''', ["x:F:2"])
 
+P("input_name_rebound_before_it_is_returned", '''
+@script()
+def f(x: FLOAT[...], y: FLOAT[...]):
+    t = x
+    x = y + 1.0
+    return t, x
+''', ["x:F:2 y:F:2"])
+
 P("same_named_subfunctions_in_two_domains", '''
 from onnxscript.values import Opset
 
@@ -958,6 +966,25 @@ def f(x: FLOAT[...], c: BOOL):
     else:
         t = x
     return x + gain
+'''),
+    ("return_is_not_the_last_statement", '''
+@script()
+def f(x: FLOAT[...]):
+    return x + 1.0
+    return x + 2.0
+'''),
+    ("loop_updates_no_live_variable", '''
+@script()
+def f(x: FLOAT[...], n: INT64):
+    for i in range(n):
+        t = x + 1.0
+    return x * 2.0
+'''),
+    ("assignment_to_a_subscript", '''
+@script()
+def f(x: FLOAT[...], y: FLOAT[...]):
+    y[0] = x
+    return y
 '''),
     ("loop_break_with_else_branch", '''
 @script()
